@@ -7,7 +7,7 @@ from ..report import Inconclusive
 from ..gram import model as gm
 from ..py.eff import nonfresh, base_origin
 from ..py.guards import always_raises, resolved_text, stmt_of, path_to
-from ..py.index import u, walk_shallow
+from ..py.index import u, walk_shallow, pos
 from . import common
 from .c19 import get_ord
 
@@ -58,9 +58,24 @@ def c04_1(rep, ix):
     rep.check(ok, R, ix.site(f), "is_template() returns bool(self.parameters)", "returns `%s`" % (u(body[0].value) if body and isinstance(body[0], ast.Return) else None), key="is_template")
     p = ix.func("program.BlackbirdProgram.parameters")
     body = [s for s in p.node.body if not (isinstance(s, ast.Expr) and isinstance(s.value, ast.Constant))]
-    v = " ".join(u(body[0].value).split()) if len(body) == 1 and isinstance(body[0], ast.Return) else None
-    okp = v in ("set([str(i) for i in self._parameters])", "{str(i) for i in self._parameters}", "set((str(i) for i in self._parameters))", "set(map(str, self._parameters))",
-                "set(str(i) for i in self._parameters)")
+    ret = body[0].value if len(body) == 1 and isinstance(body[0], ast.Return) else None
+    v = " ".join(u(ret).split()) if ret is not None else None
+
+    def names_of(e):
+        """e builds the set {str(x) for x in self._parameters} (any spelling, any variable name)"""
+        if isinstance(e, ast.Call) and u(e.func) in ("set", "frozenset") and len(e.args) == 1 and not e.keywords:
+            a = e.args[0]
+            if isinstance(a, ast.Call) and u(a.func) == "map" and len(a.args) == 2:
+                return u(a.args[0]) == "str" and u(a.args[1]) == "self._parameters"
+            return isinstance(a, (ast.ListComp, ast.GeneratorExp, ast.SetComp)) and comp_ok(a)
+        return isinstance(e, ast.SetComp) and comp_ok(e)
+
+    def comp_ok(c):
+        if len(c.generators) != 1:
+            return False
+        g = c.generators[0]
+        return isinstance(g.target, ast.Name) and not g.ifs and u(g.iter) == "self._parameters" and u(c.elt) == "str(%s)" % g.target.id
+    okp = ret is not None and names_of(ret)
     rep.check(okp, R, ix.site(p), "parameters is the set of str(p) for p in self._parameters", "returns `%s`" % v, key="parameters")
     c = ix.func(CALL)
     first = [s for s in c.node.body if not (isinstance(s, ast.Expr) and isinstance(s.value, ast.Constant))][0]
@@ -79,7 +94,7 @@ def c04_2(rep, ix):
     prog = rets[0].value.id
     resets = [s for s in fn.body if isinstance(s, ast.Assign) and u(s.targets[0]) == "%s._parameters" % prog and isinstance(s.value, ast.List) and not s.value.elts]
     defs = [s for s in fn.body if isinstance(s, ast.Assign) and u(s.targets[0]) == prog]
-    ok = len(resets) == 1 and len(defs) == 1 and defs[0].lineno < resets[0].lineno and all(r.lineno > resets[0].lineno for r in rets)
+    ok = len(resets) == 1 and len(defs) == 1 and pos(defs[0]) < pos(resets[0]) and all(pos(r) > pos(resets[0]) for r in rets)
     rep.check(ok, R, ix.site(f, resets[0]) if resets else ix.site(f), "`%s._parameters = []` is executed unconditionally after the copy and before every return" % prog, key="reset")
     later = [n for n in walk_shallow(fn) if isinstance(n, (ast.Assign, ast.AugAssign)) and "%s._parameters" % prog in u(n) and n not in resets] + \
             [n for n in walk_shallow(fn) if isinstance(n, ast.Call) and isinstance(n.func, ast.Attribute) and u(n.func.value) == "%s._parameters" % prog]
@@ -110,7 +125,7 @@ def c04_3(rep, ix):
         tr = None
         for t in ast.walk(fn):
             if isinstance(t, ast.Try) and any(x is n for b in t.body for x in ast.walk(b)):
-                if tr is None or t.lineno > tr.lineno:
+                if tr is None or pos(t) > pos(tr):
                     tr = t
         ok = False
         if tr is not None:
@@ -262,7 +277,7 @@ def c04_5(rep, ix, G):
     v = " ".join(u(pub[0].args[0]).split()) if len(pub) == 1 and pub[0].args else None
     rep.check(v in ("[p for p in _PARAMS if not is_ptype(p)]", "(p for p in _PARAMS if not is_ptype(p))"), R, ix.site(e), "exitProgram publishes exactly the non-p-type entries of the table", "publishes `%s`" % v, key="publish")
     clr = [n for n in walk_shallow(e.node) if isinstance(n, ast.Call) and u(n.func) == "_PARAMS.clear"]
-    rep.check(len(clr) == 1 and pub and clr[0].lineno > pub[0].lineno, R, ix.site(e), "the table is cleared after publishing", key="clear after")
+    rep.check(len(clr) == 1 and pub and pos(clr[0]) > pos(pub[0]), R, ix.site(e), "the table is cleared after publishing", key="clear after")
     a = ix.func(ARRAY)
     an = a.node
     from ..py.guards import resolved_text, stmt_of
@@ -289,4 +304,6 @@ def c04_5(rep, ix, G):
                   "rows are the outer loop over shape[0], columns the inner loop over shape[1]", "loops %s" % its, key="element loops")
     ext = [n for n in walk_shallow(an) if isinstance(n, ast.Call) and u(n.func) == "_PARAMS.extend"]
     rem = [n for n in walk_shallow(an) if isinstance(n, ast.Call) and u(n.func) == "_PARAMS.remove"]
-    rep.check(len(ext) == 1 and len(rem) == 1 and u(rem[0].args[0]) == "parameters[0][1]", R, ix.site(a), "the per-element symbols are added and the array-level symbol removed from the table", key="replace")
+    remarg = resolved_text(an, rem[0].args[0], stmt_of(an, rem[0])) if len(rem) == 1 and rem[0].args else None
+    rep.check(len(ext) == 1 and len(rem) == 1 and remarg == "parameters[0][1]", R, ix.site(a), "the per-element symbols are added and the array-level symbol removed from the table",
+              "removes `%s`" % remarg, key="replace")
